@@ -181,6 +181,21 @@ func (c *Case) answerFor(node string, k int) model.Answer {
 	return as[k]
 }
 
+// ApplyDataObjects gives the data objects declared in the process (id != name)
+// their values the way the repository's own fixture does it: through the
+// locator, by name, before the start.
+func ApplyDataObjects(in *Inst, do map[string]any) {
+	for name, v := range do {
+		loc, ok := in.P.Locator().FindIItemAwareLocator(data.LocatorObject)
+		if !ok {
+			continue // the program declares no data object
+		}
+		if aware, found := loc.FindItemAwareByName(name); found {
+			aware.Put(schema.NewValue(v))
+		}
+	}
+}
+
 // RunLockstep executes the case against the engine and the model in
 // lock-step; pick chooses among n pending requests (nil: from c.Schedule).
 func RunLockstep(c *Case, pick func(n int) int, hk *Hooks) *Outcome {
@@ -217,20 +232,8 @@ func RunLockstep(c *Case, pick func(n int) int, hk *Hooks) *Outcome {
 	} else {
 		ev, do := SplitVars(c.Vars)
 		in, err = New(xml, Options{Vars: ev, SplitCtx: c.CancelBuildAfter > 0})
-		// data objects are declared in the process (id != name) and given their
-		// value the way the repository's own fixture does it: through the
-		// locator, by name, before the start
-		for name, v := range do {
-			if err != nil {
-				break
-			}
-			loc, ok := in.P.Locator().FindIItemAwareLocator(data.LocatorObject)
-			if !ok {
-				continue // the program declares no data object
-			}
-			if aware, found := loc.FindItemAwareByName(name); found {
-				aware.Put(schema.NewValue(v))
-			}
+		if err == nil {
+			ApplyDataObjects(in, do)
 		}
 	}
 	if err != nil {
